@@ -4,7 +4,7 @@ import numpy as np
 import impl, gen, evalutil as E
 from props.c10 import summ_equal
 
-RULE = ("label-map pairs with 2-6 semantic/instance labels, labels of different groups adjacent and overlapping, arrays "
+RULE = ("groups with 10-32 widely spread labels on uint32 maps; signed semantic input with negative labels (must be rejected); label-map pairs with 2-6 semantic/instance labels, labels of different groups adjacent and overlapping, arrays "
         "with and without background x random partitions of the label set into 1-4 named groups (plain, merge, "
         "single-instance; names with upper case, spaces, '-', '_') x labels outside every group (must be rejected) x "
         "input types x decision metric; each group's result compared with an ungrouped evaluation of the restricted "
@@ -44,6 +44,13 @@ def one_case(ctx, pred, ref, cfg, groups, src):
     present = (set(np.unique(pred).tolist()) | set(np.unique(ref).tolist())) - {0}
     undefined = sorted(present - defined)
     res = E.run_impl(cfg, pred, ref, groups=groups)
+    if any(l < 0 for l in undefined):
+        ctx.case(inp, True)
+        ctx.count("negative_undefined_label")
+        if res != "ERR:AssertionError":
+            ctx.violation(f"input with negative label(s) {[l for l in undefined if l < 0]} that belong to no group was not rejected", inp,
+                          impl=str(res)[:200], key={"kind": "undefined-accepted"})
+        return
     adjacent = len(groups) >= 2 and len([g for g in groups if (np.isin(pred, g["labels"]).any() or np.isin(ref, g["labels"]).any())]) >= 2
     ctx.case(inp, adjacent, sample={k: inp[k] for k in ("shape", "pred", "ref", "groups")} if pred.size <= 20 else None)
     ctx.count("undefined_label" if undefined else "all_defined")
@@ -123,6 +130,26 @@ def gen_case(rng):
     return pred, ref, labels
 
 
+def spread_case(rng):
+    """a group with many widely spread labels next to a small group (uint32 maps)"""
+    side = rng.choice([10, 14, 16])
+    k = rng.randint(10, 32)
+    big = sorted(rng.sample(range(100, 60000), k)) if rng.random() < 0.7 else list(range(50, 50 + k))
+    small = [7, 8]
+    def mk():
+        a = np.zeros((side, side), np.uint32)
+        for _ in range(rng.randint(2, 6)):
+            tmp = np.zeros((side, side), np.uint8)
+            gen.put_object(rng, tmp, 1, kind=rng.choice(["box", "box", "line", "L"]))
+            a[tmp == 1] = rng.choice(small + big[:3] + [rng.choice(big)])
+        return a
+    ref = mk()
+    pred = ref.copy() if rng.random() < 0.4 else mk()
+    groups = [{"name": "spread", "labels": big, "merge": rng.random() < 0.2, "single": False},
+              {"name": "small", "labels": small, "merge": False, "single": False}]
+    return pred, ref, groups
+
+
 def rand_cfg(rng):
     it = rng.choice(["MATCHED", "UNMATCHED", "SEMANTIC", "SEMANTIC"])
     metrics = ["IOU", "DSC"] + (["RVD"] if rng.random() < 0.5 else []) + (["ASSD"] if rng.random() < 0.3 else [])
@@ -137,6 +164,20 @@ def rand_cfg(rng):
 def run_cases(ctx, n, tag):
     rng = ctx.rng
     for i in range(n):
+        r = rng.random()
+        if r < 0.1:
+            pred, ref, groups = spread_case(rng)
+            ctx.count("spread_group")
+            one_case(ctx, pred, ref, E.mk_cfg("MATCHED", ["IOU", "DSC"]), groups, f"{tag}{i}.spread")
+            continue
+        if r < 0.16:
+            pred, ref, labels = gen_case(rng)
+            dt = rng.choice([np.int16, np.int32, np.int64])
+            pred, ref = pred.astype(dt), ref.astype(dt)
+            (pred if rng.random() < 0.5 else ref)[tuple(rng.randrange(n2) for n2 in pred.shape)] = rng.choice([-1, -1, -7])
+            cfg = E.mk_cfg("SEMANTIC", ["IOU", "DSC"], matcher=E.naive("IOU", (1, 2)))
+            one_case(ctx, pred, ref, cfg, rand_groups(rng, labels), f"{tag}{i}.neg")
+            continue
         pred, ref, labels = gen_case(rng)
         groups = rand_groups(rng, labels if rng.random() < 0.85 else labels[:-1])
         one_case(ctx, pred, ref, rand_cfg(rng), groups, f"{tag}{i}")
